@@ -11,23 +11,29 @@ C_Cids   == {"c1", "c2"}
 C_COwner == [c \in {"c1", "c2", "c3"} |-> IF c = "c3" THEN "o2" ELSE "o1"]
 
 \* ---- group T: the epoch tick with all kinds of subscribers ----
-T_Acts == {"mint", "lock", "burn", "sub", "rej", "tick", "tickB", "tickC", "put", "estPut"}
-T_Signers == {{}, {"ALPHA"}}
-\* ---- group F: fee flow, mixed histories of mint/lock/put/delete/tick/burn ----
-F_Acts == {"mint", "lock", "burn", "setFee", "put", "delete", "tick"}
+T_Acts == {"mint", "lock", "sub", "rej", "tick", "tickC", "estPut", "put"}
+T_ActsQ == {"mint", "lock", "sub", "rej", "tick", "tickC", "estPut"}
+T_Signers == {{"ALPHA"}, {"K1"}}
+\* ---- group F: fee flow of put/putNamed ----
+F_Acts == {"mint", "setFee", "put", "delete"}
 F_Signers == {{"CMT"}, {"ALPHA"}}
+\* ---- group W: withdraw cycle with container fees in between ----
+W_Acts == {"mint", "lock", "burn", "tick", "tickB", "put", "setFee"}
 \* ---- group N: name resolution and the Alphabet contract ----
-N_Acts == {"repoint", "deployLate", "vote", "tick", "tick2", "setFee", "mint", "put"}
-N_Signers == {{"ALPHA"}, {"CMT"}, {"ALPHA", "CMT"}}
-N_Cands == {<<"K1">>, <<"K2", "K1">>, <<"KX", "K2">>}
+N_Acts == {"repoint", "deployLate", "vote", "tick", "tick2", "designate"}
+N_Signers == {{"ALPHA"}, {"CMT"}}
+N_Signers3 == {{"ALPHA"}, {"CMT"}, {"ALPHA", "CMT"}}
+N_Cands == {<<"V1">>, <<"VX", "V2">>}
 
 \* ---- simulation (scenario generation): everything at once ----
 S_Acts == {"mint", "burn", "lock", "setFee", "sub", "rej", "tick", "tick2", "tickB", "tickC", "put", "delete", "estPut",
-           "repoint", "deployLate", "vote"}
+           "repoint", "deployLate", "vote", "designate"}
 S_Signers == {{}, {"ALPHA"}, {"CMT"}, {"M1"}, {"X"}, {"ALPHA", "CMT"}, {"K1"}, {"K1", "ALPHA"}}
-S_Cands == {<<"K1">>, <<"K2">>, <<"K2", "K1">>, <<"K1", "K2">>, <<"KX", "K2">>, <<"K1", "KX">>, <<"K1", "K2", "KX">>, <<>>}
+S_Cands == {<<"V1">>, <<"V2">>, <<"V2", "V1">>, <<"V1", "V2">>, <<"VX", "V2">>, <<"V1", "VX">>, <<"V1", "V2", "VX">>, <<>>}
 S_Cids == {"c1", "c2", "c3"}
 
+IR2 == <<"I1", "I2">>
+IR3 == <<"I1", "I2", "I3">>
 L0 == <<>>
 L1 == <<"l1">>
 L2 == <<"l1", "l2">>
